@@ -1,14 +1,22 @@
 #!/bin/sh
 # Developer helper: instrument /repo (or $VERIF_REPO) into /tmp/ins-<variant> and build one engine test binary
 # usage: tools/devbuild.sh <engine> [variant]   -> bin/<engine>.test
+# variant tokens joined by '+': default | poll_opt | gc_opt | small (knob flavour) | race (race-detector flavour)
 cd "$(dirname "$0")/.." || exit 2
 export GOFLAGS=-mod=mod GOPROXY=off GOSUMDB=off GOTOOLCHAIN=local CGO_ENABLED=0
 E=$1; V=${2:-default}
 go1.26.8 build -o bin/vinstr ./cmd/vinstr || exit 2
 D=/tmp/ins-$V; rm -rf "$D"; mkdir -p "$D"
-TAGS=$(echo "$V" | tr '+' '\n' | grep -v -e '^default$' -e '^small$' | tr '\n' ',' | sed 's/,$//')
-SMALL=""; echo "$V" | grep -q small && SMALL=small
+TAGS=$(echo "$V" | tr '+' '\n' | grep -v -e '^default$' -e '^small$' -e '^race$' | tr '\n' ',' | sed 's/,$//')
+SMALL="-"; echo "$V" | grep -q small && SMALL=small
+echo "$V" | grep -q race && SMALL="$SMALL,race"
 ./bin/vinstr "${VERIF_REPO:-/repo}" "$D" "${TAGS:--}" $SMALL >/dev/null || exit 2
 for f in $(cd inject && find . -name "*.go.txt"); do cp "inject/$f" "$D/${f%.txt}"; done
 sed "s#=> /repo#=> $D#" go.mod > "$D.mod"; cp go.sum "$D.sum"
-go1.26.8 test -c -modfile="$D.mod" -tags "verif $(echo $TAGS | tr ',' ' ')" -o "bin/$E.test" "./engines/$E"
+RACE=""
+if echo "$V" | grep -q race; then
+  export CGO_ENABLED=1
+  rm -rf "$D.rt"; OV=$(./bin/vinstr raceoverlay "$(go1.26.8 env GOROOT)" "$D.rt") || exit 2
+  RACE="-race -overlay $OV"
+fi
+go1.26.8 test -c $RACE -modfile="$D.mod" -tags "verif $(echo $TAGS | tr ',' ' ')" -o "bin/$E.test" "./engines/$E"
